@@ -30,8 +30,9 @@ EPS = float(np.finfo(float).eps)
 
 LABEL_MAPS = {
     "int": {"a": 10, "b": 20, "c": 5, "d": 7},          # arm order differs from sorted order
-    "str": {"a": "m", "b": "z", "c": "b", "d": "k"},
+    "str": {"a": "m", "b": "mz", "c": "b", "d": "bdd"},   # different lengths; cut to one character b becomes a, d becomes c
     "float": {"a": 1.5, "b": 0.5, "c": 2.5, "d": 0.25},
+    "int0": {"a": 0, "b": -1, "c": 5, "d": 7},            # 0 is a legal arm label like any other
 }
 
 
@@ -179,7 +180,7 @@ class CFBinding:
     def reject(self, mab, kind, feat):
         arms = list(mab.arms)
         first = arms[0]
-        unknown = [v for v in self.lm.values() if v not in arms] + [{"int": 777, "str": "zz", "float": 77.5}[self.lmname]]
+        unknown = [v for v in self.lm.values() if v not in arms] + [{"int": 777, "int0": 777, "str": "zz", "float": 77.5}[self.lmname]]
         good_r = self.reward(1) if self.lp != "ts" else 1
         feats = {a: [1.0, 0.0] for a in arms}
         table = {
@@ -560,12 +561,13 @@ class Replay:
         if not edges:
             return self
         init_key = self.key(edges[0]["s"])
-        obj, prev, trail, sibling, given = None, None, [], None, None
+        obj, prev, trail, sibling, given, last_label = None, None, [], None, None, None
         for edge in edges:
             if len(self.sig_counts) >= self.max_findings:
                 break
             skey = self.key(edge["s"])
             if skey == init_key and (obj is None or prev != skey):
+                self.finish_path(obj, last_label)
                 obj, trail = b.new(edge["s"]["arms"], edge["s"].get("bin", "none")), []
                 # a second bandit built from the caller's very same list of arms: its arms are its own (C08, C04)
                 sibling, given = None, getattr(b, "given_arms", None)
@@ -575,9 +577,11 @@ class Replay:
                     except Exception:  # noqa
                         sibling = None
             elif obj is None or prev != skey:
+                self.finish_path(obj, last_label)
                 obj = None
                 continue
             label = edge["l"]
+            last_label = label
             op = label["op"]
             self.current = edge
             self.parent["__path__"] = None
@@ -610,8 +614,28 @@ class Replay:
                             "list object: %r, constructed with %r" % (op, list(sibling.arms), given[1]), "__path__", label)
                 sibling = None
             prev = self.key(edge["t"])
+        self.finish_path(obj, last_label)
         self._trail = None
         return self
+
+    def finish_path(self, obj, label):
+        """C19 at the end of a path: the object that lived through the whole call sequence (never copied, its training
+        arrays still the caller's own objects) against a deep copy and a pickle of it, each running the long continuation."""
+        if obj is None or label is None or "clone" not in self.checks or not getattr(obj, "_is_initial_fit", False):
+            return
+        self.stats["path_clones"] = self.stats.get("path_clones", 0) + 1
+        try:
+            clones = [("deepcopy", copy.deepcopy(obj)), ("pickle", pickle.loads(pickle.dumps(obj, protocol=4)))]
+            want = self.probe_inplace(obj)
+            for how, clone in clones:
+                got = self.probe_inplace(clone)
+                if not same(got, want):
+                    self.report("clone.path", "%s of a bandit at the end of a call sequence answers the continuation with %s, the "
+                                "bandit itself with %s" % (how, _fmt(got), _fmt(want)), "__path__", label)
+                    break
+        except Exception as error:  # noqa
+            self.report("clone.exception", "copying at the end of a call sequence raised %s: %s" % (type(error).__name__, error),
+                        "__path__", label)
 
     def ctx(self, m, mab):
         try:
